@@ -1405,6 +1405,29 @@ static const char *make_output_filename(char *buf, size_t buf_size,
 }
 
 
+//! Whether two names denote the same file: spelled alike, or (a name like './x.c' for 'x.c', a hard link) the same file on disk
+static bool is_same_file(const char *filename1, const char *filename2)
+{
+   if (strcmp(filename1, filename2) == 0)
+   {
+      return(true);
+   }
+#ifndef WIN32
+   struct stat st1;
+   struct stat st2;
+
+   if (  stat(filename1, &st1) == 0
+      && stat(filename2, &st2) == 0
+      && st1.st_dev == st2.st_dev
+      && st1.st_ino == st2.st_ino)
+   {
+      return(true);
+   }
+#endif
+   return(false);
+}
+
+
 static bool file_content_matches(const string &filename1, const string &filename2)
 {
    struct stat st1;
@@ -1598,7 +1621,7 @@ static void do_source_file(const char *filename_in,
          // If the out file is the same as the in file, then use a temp file
          filename_tmp = filename_out;
 
-         if (strcmp(filename_in, filename_out) == 0)
+         if (is_same_file(filename_in, filename_out))
          {
             // Create 'outfile.uncrustify'
             filename_tmp += ".uncrustify";
